@@ -417,26 +417,40 @@ class t2data(object):
         """Determines an appropriate position to insert the specified section
         in the internal list of data file sections.
         """
-        try:
-            listindex = t2data_sections.index(section)
-            if listindex == 0: return 0  # SIMUL section
-            else:
-                # first look for sections above the one specified,
-                # and put new one just after the last found:
-                for i in reversed(range(listindex)):
-                    try:
-                        section_index = self._sections.index(t2data_sections[i])
-                        return section_index + 1
-                    except ValueError: pass
-                # look for sections below the one specified,
-                # and put new one just before the first found:
-                for i in range(listindex, len(t2data_sections)):
-                    try:
-                        section_index = self._sections.index(t2data_sections[i])
-                        return section_index
-                    except ValueError: pass
-                return len(self._sections)
-        except ValueError: return len(self._sections)
+        def default_index():
+            try:
+                listindex = t2data_sections.index(section)
+                if listindex == 0: return 0  # SIMUL section
+                else:
+                    # first look for sections above the one specified,
+                    # and put new one just after the last found:
+                    for i in reversed(range(listindex)):
+                        try:
+                            section_index = self._sections.index(t2data_sections[i])
+                            return section_index + 1
+                        except ValueError: pass
+                    # look for sections below the one specified,
+                    # and put new one just before the first found:
+                    for i in range(listindex, len(t2data_sections)):
+                        try:
+                            section_index = self._sections.index(t2data_sections[i])
+                            return section_index
+                        except ValueError: pass
+                    return len(self._sections)
+            except ValueError: return len(self._sections)
+        index = default_index()
+        if section != 'SIMUL':
+            # the position must also suit the order in which sections can be read:
+            # (sections that need others to have been read before them)
+            needs = {'ELEME': ['ROCKS'], 'CONNE': ['ROCKS', 'ELEME'], 'DIFFU': ['MULTI'],
+                     'SHORT': ['ELEME', 'CONNE', 'GENER'], 'COFT': ['ELEME', 'CONNE']}
+            later = [self._sections.index(s) for s in needs
+                     if section in needs[s] and s in self._sections]
+            if later: index = min(index, min(later))
+            earlier = [self._sections.index(s) for s in needs.get(section, [])
+                       if s in self._sections]
+            if earlier: index = max(index, max(earlier) + 1)
+        return index
 
     def update_sections(self):
         """Updates internal section list, based on which properties are present."""
